@@ -326,16 +326,22 @@ func judgeVc(line string, l vcLine, res string) {
 		}
 		left[o.String()]--
 	}
-	honest := why == "" && reproduced && payOk
+	// ... and every output the code spends is spent by the transaction
+	spendOk, exact := true, true
 	for _, c := range l.cin {
-		found := false
+		sameRef, same := false, false
 		for _, in := range l.in {
+			if in.t == c.t && in.off == c.off {
+				sameRef = true
+			}
 			if in == c {
-				found = true
+				same = true
 			}
 		}
-		honest = honest && found
+		spendOk = spendOk && sameRef
+		exact = exact && same
 	}
+	honest := why == "" && reproduced && payOk && exact
 	switch {
 	case res == "accept" && why != "":
 		out.Violate(xvlib.Violation{Key: "unauthorised-spend:" + why,
@@ -348,6 +354,10 @@ func judgeVc(line string, l vcLine, res string) {
 	case res == "accept" && !payOk:
 		out.Violate(xvlib.Violation{Key: "contract-payment-not-in-tx",
 			What: "VerifyTx accepts a transaction whose outputs do not contain the payments the carried code makes",
+			Ops:  []string{line}, Impl: []string{res}})
+	case res == "accept" && !spendOk:
+		out.Violate(xvlib.Violation{Key: "contract-spend-not-in-tx",
+			What: "VerifyTx accepts a transaction whose inputs do not contain the outputs the carried code spends",
 			Ops:  []string{line}, Impl: []string{res}})
 	case res == "reject" && honest:
 		out.Violate(xvlib.Violation{Key: "contract-spend-rejected",
@@ -438,15 +448,14 @@ func tamperVc(h vcLine) []vcLine {
 	}
 	for _, victim := range []string{"A6", "C3", "A5", "V", h.sg[0]} {
 		victim := victim
-		if len(h.cin) > 0 && victim == h.cin[0].owner {
-			continue
+		if len(h.cin) == 0 || victim != h.cin[0].owner {
+			// the output really belongs to someone else; the execution was shown a view in which it is the payer's
+			emit("owner:"+victim+":tx-input-only", func(l *vcLine) { l.in[first(l)].owner = victim })
+			emit("owner:"+victim+":last-tx-input-only", func(l *vcLine) { l.in[last(l)].owner = victim })
+			emit("owner:"+victim+":tx-and-declared", func(l *vcLine) { l.in[first(l)].owner = victim; l.cin[0].owner = victim })
+			emit("owner:"+victim+":declared-only", func(l *vcLine) { l.cin[0].owner = victim })
 		}
-		// the output really belongs to someone else; the execution was shown a view in which it is the payer's
-		emit("owner:"+victim+":tx-input-only", func(l *vcLine) { l.in[first(l)].owner = victim })
-		emit("owner:"+victim+":last-tx-input-only", func(l *vcLine) { l.in[last(l)].owner = victim })
-		emit("owner:"+victim+":tx-and-declared", func(l *vcLine) { l.in[first(l)].owner = victim; l.cin[0].owner = victim })
-		emit("owner:"+victim+":declared-only", func(l *vcLine) { l.cin[0].owner = victim })
-		// a further output of someone else rides along
+		// a further output (of someone else, or of the payer itself but not spent by the code) rides along
 		emit("extra:"+victim+":fresh-ref", func(l *vcLine) { l.in = append(l.in, vcIn{t: 30, off: 0, owner: victim, amount: "70"}) })
 		emit("extra:"+victim+":same-txid-other-offset", func(l *vcLine) {
 			l.in = append(l.in, vcIn{t: l.cin[0].t, off: l.cin[0].off + 5, owner: victim, amount: "70"})
